@@ -1,4 +1,4 @@
-(* GENERATED on every run by translate/pycapture2coq.py from /tmp/tie-extract-wt/psiaudio/pipeline.py
+(* GENERATED on every run by translate/pycapture2coq.py from /repo/psiaudio/pipeline.py
    (coroutine capture_epoch, lines 631-711) - do not edit.
    int(round(e)) = e on integers (the harness hands the model the effective integers)
    pinned: `if hasattr(c, 'metadata'): ...` -> dropped
